@@ -455,6 +455,8 @@ int main(int argc, char** argv)
         run_c13(cx);
     else if (p == "C14")
         run_c14(cx);
+    else if (p == "C17")
+        run_c17(cx);
     else
     {
         fprintf(stderr, "d_math: unknown property %s\n", p.c_str());
